@@ -300,7 +300,7 @@ func (r *poolRun) one(traceNo int, steps int) {
 		panic(err)
 	}
 	r.srv = srv
-	sched.Mapper = r.mapper
+	sched.SetMapper(r.mapper)
 	eff := r.pc
 	if eff > r.maxPool {
 		eff = r.maxPool
